@@ -106,9 +106,20 @@ def check(ctx):
     pl = ctx.fn("aio.http.httping", "parseLeader")
     ctx.check("lodict()" in src(pl), "T6-lodict", pl, "parseLeader collects into a lodict", "")
     be = ctx.cls("aio.http.serving", "Valet").own_method("buildEnviron")
-    t = src(be)
-    ctx.check("'HTTP_' + key.replace('-', '_').upper()" in t and "requestant.headers.get('content-type'" in t and "environ['CONTENT_LENGTH']" in t,
-              "T6-lodict", be, "buildEnviron: HTTP_<NAME> keys, CONTENT_TYPE, CONTENT_LENGTH", "a consistent WSGI environment")
+    B = FuncView(ctx, be)
+    env = {}        # constant key -> value by value;  computed keys under "*"
+    for n in B.cfg.nodes:
+        if isinstance(n.ast, ast.Assign) and isinstance(n.ast.targets[0], ast.Subscript) and src(B.sym(n.ast.targets[0].value, n)) in ("environ", "odict()"):
+            k = n.ast.targets[0].slice
+            if const_str(k) is not None:
+                env[const_str(k)] = src(B.sym(n.ast.value, n))
+            else:
+                env.setdefault("*", []).append((n, src(B.sym(k, n, depth=3))))
+    loops = [h for h in B.cfg.nodes if h.kind == "for" and src(B.sym(h.ast.iter, h)) == "requestant.headers.items()"]
+    okb = env.get("CONTENT_TYPE", "").startswith("requestant.headers.get('content-type'") and env.get("CONTENT_LENGTH") == "str(requestant.length)"
+    okb = okb and bool(loops) and any(k.replace('"', "'") == "'HTTP_' + key.replace('-', '_').upper()" and
+                                      id(n.ast) in {id(x) for x in ast.walk(loops[0].ast)} for n, k in env.get("*", []))
+    ctx.check(okb, "T6-lodict", be, "buildEnviron: HTTP_<NAME> keys, CONTENT_TYPE, CONTENT_LENGTH", "a consistent WSGI environment")
     # JSON bodies: what json.dumps emits must survive the bytes conversion that follows it.  ns2b() encodes ISO-8859-1, so the
     # text must be pure ASCII (ensure_ascii left at its default) unless it is encoded as UTF-8 explicitly
     ctx.rule("T9-json", "json.dumps(.., ensure_ascii=False) is never converted to bytes with ns2b()/latin-1")
@@ -152,3 +163,7 @@ def plus_decoders(ctx, rule):
                 ctx.bad(rule, x, src(x)[:80], "this query decoder uses unquote (not unquote_plus): a `+` written by the encoder for a space "
                         "stays a literal plus and is re-encoded as %2B, so the query that arrives differs from the one sent")
     ctx.ok(rule, "ioflo/aio/http", "no call of a query decoder that keeps `+` literal (%s); %d call(s) found" % (sorted(plain) or "none defined", n))
+    # (v) the response framing rules of C31 (content-length xor chunked, terminating chunk, re-armed responder): a response whose
+    # framing is wrong does not reach the client with the same body
+    from . import c31
+    c31.responder_framing(ctx)
